@@ -91,10 +91,20 @@ def showRet (r : Ret) : String :=
     | some l => rootsTok l
   (if r.ok then "ok" else "err") ++ s!" key={optNat r.key} cert={optNat r.cert} root={root}"
 
+/-- An SDS subscriber (stream `sds`). -/
+structure Sub where
+  id   : Nat
+  res  : Res
+  live : Bool := true
+  n    : Nat := 0         -- responses received
+  last : String := ""     -- content of the last response
+
 structure DState where
   sys  : Sys := {}
   next : Nat := 0        -- next free process slot
   tick : Int := 0        -- logical clock: one tick per op
+  subs : List Sub := []  -- stream `sds`, in subscription order (ids increase)
+  sds  : Bool := false   -- the case is an `sds` case
 
 def newBucket (before after : State) : String :=
   if after.queue.length > before.queue.length then
@@ -213,9 +223,95 @@ def stepTimer (toks : List String) : String :=
       let wl := match y.st.workload with
         | none => "-"
         | some it => toString it.key
-      s!"ev={evTok y.st.events} calls={y.st.caCalls} wl={wl} early=0"
+      s!"ev={evTok y.st.events} calls={y.st.caCalls} wl={wl} early=0 late=0"
     | _, _ => "bad-op"
   | _ => "bad-op"
+
+/-! Stream `sds`: the SDS server in front of the agent pushes a callback's resource to every current
+subscriber of that resource; a pushed subscriber re-requests it with GenerateSecret (sequentially here:
+by `single_flight_*` the outcome does not depend on the interleaving). -/
+
+def sdsCA : CAOut := .ok 3600000000000 0 []
+
+def descRet (res : Res) (r : Ret) : String :=
+  match res with
+  | .workload => s!"key={optNat r.key},cert={optNat r.cert}"
+  | .root => "root=" ++ (match r.root with | some l => rootsTok l | none => "-")
+
+/-- One GenerateSecret by a subscriber; returns the new driver state and the answer. -/
+def sdsGen (d : DState) (res : Res) : DState × String :=
+  let y := seqOp d.sys d.next (.gen res) { ca := sdsCA, now := d.tick * 1000000 }
+  let desc := match y.procs d.next with
+    | .gDone ret => if ret.ok then descRet res ret else "error"
+    | _ => "stuck"
+  ({ d with sys := y, next := d.next + 1, tick := d.tick + 1 }, desc)
+
+def evRes : Ev → Res
+  | .rootca => .root
+  | .workload _ => .workload
+
+/-- Deliver one callback: every live subscriber of its resource re-requests. -/
+def sdsPush (d : DState) (res : Res) : DState :=
+  d.subs.foldl (fun acc sb =>
+    if sb.live && sb.res == res then
+      let (acc', desc) := sdsGen acc res
+      { acc' with subs := acc'.subs.map fun x => if x.id == sb.id then { x with n := x.n + 1, last := desc } else x }
+    else acc) d
+
+def sdsShow (d : DState) (ev : String) : String :=
+  let cs := d.subs.map fun sb =>
+    s!"c{sb.id}:{if sb.res == .workload then "w" else "r"}:{if sb.live then "live" else "gone"}:n={sb.n}:{sb.last}"
+  let wl := match d.sys.st.workload with
+    | none => "-"
+    | some it => toString it.key
+  " ".intercalate ([s!"ev={ev}"] ++ cs ++ [s!"wl={wl} ca={d.sys.st.caCalls}"])
+
+/-- After an op: deliver the callbacks it produced (in order), then print. -/
+def sdsSettle (before : List Ev) (d : DState) : DState × String :=
+  let evs := d.sys.st.events.drop before.length
+  let d1 := evs.foldl (fun acc e => sdsPush acc (evRes e)) d
+  let evs2 := d1.sys.st.events.drop d.sys.st.events.length
+  let tok := evTok evs ++ (if evs2.isEmpty then "" else "+" ++ evTok evs2)
+  (d1, sdsShow d1 tok)
+
+def stepSds (d : DState) (toks : List String) : DState × String :=
+  let before := d.sys.st.events
+  let now := d.tick * 1000000
+  let cur : Option Nat := if d.sys.st.workload.isSome then some (d.sys.st.queue.length - 1) else none
+  let fire (k : Option Nat) : DState :=
+    match k with
+    | some e => { d with sys := seqOp d.sys d.next (.timer e) { now := now }, next := d.next + 1, tick := d.tick + 1 }
+    | none => d
+  match toks with
+  | ["sub", c, r] =>
+    match c.toNat?, (if r == "w" then some Res.workload else if r == "r" then some Res.root else none) with
+    | some id, some res =>
+      if d.subs.any (·.id == id) then (d, "bad-op") else
+      let (d1, desc) := sdsGen d res
+      sdsSettle before { d1 with subs := d1.subs ++ [{ id := id, res := res, n := 1, last := desc }] }
+    | _, _ => (d, "bad-op")
+  | ["drop", c] =>
+    match c.toNat? with
+    | some id =>
+      if d.subs.any (fun x => x.id == id && x.live) then
+        sdsSettle before { d with subs := d.subs.map fun x => if x.id == id then { x with live := false } else x }
+      else (d, "bad-op")
+    | none => (d, "bad-op")
+  | ["rotate"] => sdsSettle before (fire cur)
+  | ["firestale"] =>
+    let idx := (List.range d.sys.st.queue.length).find? fun i =>
+      (match d.sys.st.queue[i]? with | some en => !en.fired | none => false) && some i != cur
+    sdsSettle before (fire idx)
+  | ["bundle", b] =>
+    sdsSettle before { d with sys := seqOp d.sys d.next (.update (tokRoots b)) { now := now }, next := d.next + 1, tick := d.tick + 1 }
+  | _ => (d, "bad-op")
+
+/-- `NewServer` warms the cache: GenerateSecret(default), then GenerateSecret(ROOTCA). -/
+def sdsInit : DState :=
+  let d0 : DState := { sys := Sys.init ⟨1, 2⟩ ⟨0, 1⟩ }
+  let (d1, _) := sdsGen d0 .workload
+  let (d2, _) := sdsGen d1 .root
+  d2
 
 def stepD (d : DState) (toks : List String) : DState × String :=
   match toks with
@@ -223,6 +319,7 @@ def stepD (d : DState) (toks : List String) : DState × String :=
     match frac? rn rd, frac? jn jd with
     | some r, some J => ({ sys := Sys.init r J }, "ok")
     | _, _ => (d, "bad-op")
+  | ["case", _, "sds"] => ({ sdsInit with sds := true }, "ok")
   | "case" :: _ => ({}, "ok")
   | "rot" :: _ => (d, stepRotate toks)
   | "rotobs" :: _ => (d, stepRotate toks)
@@ -236,6 +333,6 @@ def stepD (d : DState) (toks : List String) : DState × String :=
     else if kind == "leafonly" || kind == "empty" || kind == "error" then stepCache d ["gen", r, "signerr"]
     else (d, "bad-op")
   | ["qs", _, _] => (d, "lost=0")   -- in the model a pushed task can always be started (`spawn (.timer e)`)
-  | _ => stepCache d toks
+  | _ => if d.sds then stepSds d toks else stepCache d toks
 
 end IstioModel.C18
